@@ -1,13 +1,20 @@
 //! The harness as one more node on the emulated CAN bus (hook H1, GLONAX_VERIF_BUS).
+//! A background thread drains the harness socket continuously, so bursts are never lost to the small
+//! default queue length of Unix datagram sockets.
 use std::os::unix::net::UnixDatagram;
 use std::path::PathBuf;
+use std::sync::atomic::{AtomicBool, Ordering};
+use std::sync::{Arc, Mutex};
 use std::time::Duration;
 
 pub struct Bus {
     pub dir: PathBuf,
     pub iface: String,
-    sock: UnixDatagram,
+    sock: Arc<UnixDatagram>,
     own: PathBuf,
+    inbox: Arc<Mutex<Vec<[u8; 16]>>>,
+    stop: Arc<AtomicBool>,
+    reader: Option<std::thread::JoinHandle<()>>,
 }
 
 static mut BUS_ROOT: Option<PathBuf> = None;
@@ -23,6 +30,9 @@ pub fn root() -> PathBuf {
         let _ = std::fs::remove_dir_all(&p);
         std::fs::create_dir_all(&p).unwrap();
         std::env::set_var("GLONAX_VERIF_BUS", &p);
+        // the clones of one network service do not hear each other: what the receive clone processes is then
+        // exactly what the harness injects (deterministic histories)
+        std::env::set_var("GLONAX_VERIF_BUS_LOOPBACK", "0");
         BUS_ROOT = Some(p.clone());
         p
     }
@@ -43,9 +53,23 @@ impl Bus {
         std::fs::create_dir_all(&dir).unwrap();
         let own = dir.join("harness.sock");
         let _ = std::fs::remove_file(&own);
-        let sock = UnixDatagram::bind(&own).unwrap();
-        sock.set_read_timeout(Some(Duration::from_millis(200))).unwrap();
-        Bus { dir, iface: iface.to_string(), sock, own }
+        let sock = Arc::new(UnixDatagram::bind(&own).unwrap());
+        sock.set_read_timeout(Some(Duration::from_millis(20))).unwrap();
+        sock.set_write_timeout(Some(Duration::from_millis(5))).unwrap();
+        let inbox = Arc::new(Mutex::new(vec![]));
+        let stop = Arc::new(AtomicBool::new(false));
+        let (s2, i2, st2) = (sock.clone(), inbox.clone(), stop.clone());
+        let reader = std::thread::spawn(move || {
+            let mut buf = [0u8; 64];
+            while !st2.load(Ordering::SeqCst) {
+                if let Ok(16) = s2.recv(&mut buf) {
+                    let mut r = [0u8; 16];
+                    r.copy_from_slice(&buf[..16]);
+                    i2.lock().unwrap().push(r);
+                }
+            }
+        });
+        Bus { dir, iface: iface.to_string(), sock, own, inbox, stop, reader: Some(reader) }
     }
 
     /// Put a raw 16-byte can_frame on the bus (delivered to every other socket).
@@ -75,34 +99,48 @@ impl Bus {
         r
     }
 
-    /// Next frame seen on the bus, if any arrives within the read timeout.
-    pub fn next(&self) -> Option<[u8; 16]> {
-        let mut buf = [0u8; 64];
-        match self.sock.recv(&mut buf) {
-            Ok(16) => {
-                let mut r = [0u8; 16];
-                r.copy_from_slice(&buf[..16]);
-                Some(r)
-            }
-            _ => None,
-        }
+    fn take(&self) -> Vec<[u8; 16]> {
+        std::mem::take(&mut *self.inbox.lock().unwrap())
     }
 
-    /// Everything currently queued (non-blocking after the first short wait).
-    pub fn drain(&self, wait_ms: u64) -> Vec<[u8; 16]> {
-        let mut out = vec![];
-        self.sock.set_read_timeout(Some(Duration::from_millis(wait_ms.max(1)))).unwrap();
-        while let Some(f) = self.next() {
-            out.push(f);
-            self.sock.set_read_timeout(Some(Duration::from_millis(2))).unwrap();
+    /// Next frame seen on the bus, if any arrives within ~200 ms.
+    pub fn next(&self) -> Option<[u8; 16]> {
+        for _ in 0..2000 {
+            {
+                let mut b = self.inbox.lock().unwrap();
+                if !b.is_empty() {
+                    return Some(b.remove(0));
+                }
+            }
+            std::thread::sleep(Duration::from_micros(100));
         }
-        self.sock.set_read_timeout(Some(Duration::from_millis(200))).unwrap();
+        None
+    }
+
+    /// Everything that arrives until the bus has been quiet for `quiet_ms`.
+    pub fn drain(&self, quiet_ms: u64) -> Vec<[u8; 16]> {
+        let mut out = vec![];
+        let mut quiet = 0u64;
+        while quiet < quiet_ms * 10 {
+            let got = self.take();
+            if got.is_empty() {
+                std::thread::sleep(Duration::from_micros(100));
+                quiet += 1;
+            } else {
+                out.extend(got);
+                quiet = 0;
+            }
+        }
         out
     }
 }
 
 impl Drop for Bus {
     fn drop(&mut self) {
+        self.stop.store(true, Ordering::SeqCst);
+        if let Some(h) = self.reader.take() {
+            let _ = h.join();
+        }
         let _ = std::fs::remove_file(&self.own);
     }
 }
